@@ -38,12 +38,28 @@ impl FromStr for Value {
     type Err = Error;
 
     fn from_str(source: &str) -> Result<Self, Self::Err> {
-        let cst = Parser::parse(source, &mut Vec::new());
+        let mut diags = Vec::new();
+        let cst = Parser::parse(source, &mut diags);
 
         let value = parse_cst(&cst, source)?;
+        reject_diagnostics(&diags, source)?;
 
         Ok(value)
     }
+}
+
+/// A text for which the lexer or the (error-recovering) parser reported a diagnostic is not JSON,
+/// even when a shape could be recovered from it.
+fn reject_diagnostics(diags: &[parser::Diagnostic], source: &str) -> Result<(), Error> {
+    let Some(diag) = diags.first() else {
+        return Ok(());
+    };
+    let span = diag
+        .labels
+        .first()
+        .map_or(0..source.len(), |label| label.range.clone());
+    let value = source.get(span.clone()).unwrap_or_default().to_string();
+    Err(Error::InvalidJson { value, span })
 }
 
 impl Value {
@@ -56,8 +72,10 @@ impl Value {
         let mut diags = Vec::new();
         let mut values = Vec::new();
         for source in sources {
+            let reported = diags.len();
             let cst = Parser::parse(source, &mut diags);
             values.push(parse_cst(&cst, source)?);
+            reject_diagnostics(&diags[reported..], source)?;
         }
 
         merge(&values)
